@@ -739,7 +739,7 @@ where
             let mut ys: Vec<(u8, u32)> = Vec::with_capacity(n + 4);
             let mut hints: Vec<(usize, (usize, Option<usize>))> = Vec::with_capacity(n + 4);
             let m = &mut slot.c.m;
-            let mut d = m.drain();
+            let mut rv = mmv_base::probe::Roving::new(m.drain());
             let mut ended = false;
             let mut steps = 0;
             loop {
@@ -749,6 +749,12 @@ where
                 if ended {
                     break;
                 }
+                if steps == 1 {
+                    // a partially consumed drain is moved to another place (old place overwritten)
+                    rv.relocate();
+                    cx.bump(S::relocations);
+                }
+                let d = rv.get();
                 hints.push(mmv_base::probe::hint_of(&d));
                 match Self::lib(cx, || d.next()) {
                     Ok(Some(k)) => ys.push((KD::kraw(&k), KD::kid(&k))),
@@ -764,6 +770,7 @@ where
                     break;
                 }
             }
+            let mut d = rv.into_inner();
             if ended {
                 if ended {
                     for _ in 0..3 {
@@ -964,7 +971,7 @@ where
                 cx.bump(S::partial_consumes);
             }
             let owned: St<KD, N> = std::mem::replace(&mut slot.c.m, Set::new());
-            let mut it = owned.into_iter();
+            let mut rv = mmv_base::probe::Roving::new(owned.into_iter());
             let mut ys: Vec<(u8, u32)> = Vec::with_capacity(n + 4);
             let mut hints: Vec<(usize, (usize, Option<usize>))> = Vec::with_capacity(n + 4);
             let mut ended = false;
@@ -973,6 +980,12 @@ where
                 if (steps >= take && end != 1) || ended {
                     break;
                 }
+                if steps == 1 {
+                    // a partially consumed iterator is moved to another place (old place overwritten)
+                    rv.relocate();
+                    cx.bump(S::relocations);
+                }
+                let it = rv.get();
                 hints.push(mmv_base::probe::hint_of(&it));
                 match Self::lib(cx, || it.next()) {
                     Ok(Some(k)) => ys.push((KD::kraw(&k), KD::kid(&k))),
@@ -988,6 +1001,7 @@ where
                     break;
                 }
             }
+            let mut it = rv.into_inner();
             if ended {
                 if ended {
                     for _ in 0..3 {
